@@ -247,14 +247,25 @@ def identity (L : Lib) (like : Option Pack := none) (dtype : Option Dt := none)
     (integerType : Bool := true) : Except Err Dt :=
   checkType L dtype like integerType
 
-/-- `utils.number(val, like=None, dtype=None)` without Sage is
-`np.array(val).astype(dtype).item()`: a *Python* scalar; `like` is ignored -/
-def number (val : Pack) (dtype : Option Dt := none) : Pack :=
-  match (match dtype with | some d => d | none => val.asarrayDtype) with
+/-- `a.item()` for an array `a` of dtype `d` made from `val`: a *Python* scalar -/
+def itemOf (val : Pack) : Dt → Pack
   | .int64 => .pyInt
   | .float32 | .float64 => .pyFloat
   | .complex128 => .pyComplex
-  | .object => val
+  | .object => match val with
+    | .npScalar d => (match d with
+        | .int64 => .pyInt | .float32 | .float64 => .pyFloat | .complex128 => .pyComplex
+        | .object => .other)
+    | v => v
+
+/-- `utils.number(val, like=None, dtype=None)` without Sage is
+`np.array(val).astype(dtype).item()`: a *Python* scalar; `like` is ignored.
+(`astype(object)` boxes the array's own scalars, so `dtype=object` keeps the kind of `val`.) -/
+def number (val : Pack) (dtype : Option Dt := none) : Pack :=
+  match dtype with
+  | none => itemOf val val.asarrayDtype
+  | some .object => itemOf val val.asarrayDtype
+  | some d => itemOf val d
 
 /-- `utils.rotation_matrix(angle, like=None)`:
 `array_like([[cos, -sin], [sin, cos]], like=angle)`; the nested list holds NumPy floats -/
